@@ -53,10 +53,19 @@ def s_case(draw):
     hist = draw(HIST)
     # sprinkle stop() / failfast toggles
     ops = []
+    toggles = ff in ("off", "after") and draw(st.integers(0, 2)) == 0
     for op in hist["ops"]:
+        if op["op"] == "outcome" and base == "ETSD" and draw(st.integers(0, 2)) == 0:
+            op = dict(op, via_status=draw(st.sampled_from(["keyword", "positional"])))    # a native StreamResult event instead of add*()
         ops.append(op)
         if op["op"] in ("stopTest", "startTestRun") and draw(st.integers(0, 6)) == 0:
-            ops.append({"op": "stop"})
+            # stop() on the outermost object or on any layer below it
+            ops.append({"op": "stop", "layer": draw(st.integers(0, len(wraps)))})
+        if op["op"] in ("stopTest", "startTestRun") and toggles and draw(st.integers(0, 3)) == 0:
+            ops.append({"op": "failfast", "value": draw(st.booleans())})
+        if op["op"] == "stopTest" and base == "TSFR" and ff in ("off", "before") and draw(st.integers(0, 3)) == 0:
+            # another worker's forwarder reports a whole test to the shared target
+            ops.append({"op": "sibling_test", "kind": draw(H.KIND)})
     return {"base": base, "wraps": wraps, "failfast": ff, "ops": ops}
 
 
@@ -107,6 +116,7 @@ def build(spec):
         r = testtools.MultiTestResult(old_style, TR())
     else:
         r = testtools.ExtendedToStreamDecorator(testtools.StreamResult())
+    layers = [r]
     for w in reversed(spec["wraps"]):
         if w == "ETOD":
             r = testtools.ExtendedToOriginalDecorator(r)
@@ -114,9 +124,11 @@ def build(spec):
             r = real.TestResultDecorator(r)
         else:
             r = real.Tagger(r, {"x"}, set())
+        layers.insert(0, r)
     if spec["failfast"] == "after":
         r.failfast = True
     build.siblings = siblings
+    build.layers = layers          # outermost first
     return r, under, text
 
 
@@ -129,6 +141,7 @@ def run_case(spec):
     direct = spec["base"] in ("ETOD-py26", "Multi-py26", "ETOD-py27")
     driver = outer if direct else testtools.ExtendedToOriginalDecorator(outer)
     ff = spec["failfast"] != "off"
+    latched = False             # a failing outcome arrived while failfast was on (since the last startTestRun)
     bad = False
     bad_strict = False          # error/failure only (ETSD)
     stopped = False
@@ -138,7 +151,10 @@ def run_case(spec):
     restarts = 0
     tag = spec["base"] + ("+" + "+".join(spec["wraps"]) if spec["wraps"] else "")
 
+    n_before = [0]
+
     def check(step):
+        n_before[0] = len(vs)
         try:
             ok = outer.wasSuccessful()
         except Exception as e:
@@ -152,7 +168,7 @@ def run_case(spec):
         elif ok != (not bad):
             vs.append(V("verdict", "%s-%s" % (spec["base"], "stale-failure" if not bad else "missed-failure"),
                         "wasSuccessful() is %r after %s on %s; failing outcome since last startTestRun: %r" % (ok, step, tag, bad)))
-        want_stop = stopped or (ff and bad)
+        want_stop = stopped or latched
         ss = outer.shouldStop
         if bool(ss) != want_stop:
             vs.append(V("stop", "%s-failfast=%s-%s" % (spec["base"], spec["failfast"], "early" if ss else "missing"),
@@ -164,6 +180,14 @@ def run_case(spec):
         for u in ([] if direct else under):
             if bool(u.shouldStop) != want_stop and not (bool(ss) != want_stop):
                 vs.append(V("stop", "underlying-%s" % spec["base"], "an underlying result has shouldStop=%r, outer says %r after %s" % (u.shouldStop, ss, step)))
+        # the verdict as seen through every other door to the same result(s)
+        if spec["base"] != "ETSD" and not direct and len(vs) == n_before[0]:
+            for who, obj in [("underlying", u) for u in under] + [("sibling-forwarder", sib) for sib in getattr(build, "siblings", [])] + \
+                    [("layer-%d" % i, l) for i, l in enumerate(getattr(build, "layers", [])[1:], 1)]:
+                if obj.wasSuccessful() != (not bad):
+                    vs.append(V("verdict", "%s-%s" % (who.split("-")[0], spec["base"]), "%s says wasSuccessful() %r after %s on %s, failing outcome reported: %r" % (
+                        who, obj.wasSuccessful(), step, tag, bad)))
+                    break
 
     check("construction")
     for n, op in enumerate(spec["ops"]):
@@ -171,7 +195,7 @@ def run_case(spec):
         if k == "startTestRun":
             driver.startTestRun()
             if not direct:      # 2.6/2.7-style targets know nothing of runs: their verdict and stop flag persist
-                bad = bad_strict = stopped = False
+                bad = bad_strict = stopped = latched = False
             restarts += 1
         elif k == "stopTestRun":
             driver.stopTestRun()
@@ -180,7 +204,16 @@ def run_case(spec):
             driver.startTest(cur)
             ntests += 1
         elif k == "outcome":
-            H.outcome_call(driver, cur, op)
+            if op.get("via_status"):
+                status = {"success": "success", "error": "fail", "failure": "fail", "skip": "skip", "xfail": "xfail", "uxsuccess": "uxsuccess"}[op["kind"]]
+                if op["via_status"] == "positional":
+                    outer.status(cur.id(), status)
+                else:
+                    outer.status(test_id=cur.id(), test_status=status)
+            else:
+                H.outcome_call(driver, cur, op)
+            if op["kind"] in H.BAD and ff:
+                latched = True
             if op["kind"] in H.BAD:
                 if not bad:
                     bad_pos = ntests
@@ -192,8 +225,21 @@ def run_case(spec):
         elif k == "stopTest":
             driver.stopTest(cur)
         elif k == "stop":
-            outer.stop()
+            getattr(build, "layers", [outer])[min(op.get("layer", 0), len(build.layers) - 1)].stop()
             stopped = True
+        elif k == "failfast":
+            outer.failfast = op["value"]
+            ff = op["value"]
+        elif k == "sibling_test":
+            sib = build.siblings[0]
+            t2 = H.make_test(90 + n)
+            sib.startTest(t2)
+            getattr(sib, H.METHOD[op["kind"]])(t2, **({"details": {}} if op["kind"] != "skip" else {"reason": "r"}))
+            sib.stopTest(t2)
+            if op["kind"] in H.BAD:
+                bad = bad_strict = True
+                if ff:
+                    latched = True
         else:
             continue
         before = len(vs)
@@ -202,7 +248,11 @@ def run_case(spec):
             break
     nt = (ntests >= 2 and bad_pos is not None and bad_pos > 1) or restarts >= 2 or len(spec["wraps"]) >= 1 and spec["base"] in ("Multi", "TSFR") or len(spec["wraps"]) >= 2
     return Case(vs, nt, ["base=" + spec["base"], "wraps=%d" % len(spec["wraps"]), "failfast=" + spec["failfast"],
-                         "bad" if bad_pos else "good", "stop" if any(o["op"] == "stop" for o in spec["ops"]) else ""],
+                         "bad" if bad_pos else "good", "stop" if any(o["op"] == "stop" for o in spec["ops"]) else "",
+                         "stop-below-outer" if any(o["op"] == "stop" and o.get("layer") for o in spec["ops"]) else "",
+                         "failfast-toggled" if any(o["op"] == "failfast" for o in spec["ops"]) else "",
+                         "sibling-reports" if any(o["op"] == "sibling_test" for o in spec["ops"]) else "",
+                         "native-status" if any(o.get("via_status") for o in spec["ops"]) else ""],
                 {"tests": ntests})
 
 
